@@ -5,6 +5,7 @@ package main
 // x/net/html and compared: elements in order, link/image destinations and titles, code content, list starts, cell alignment, text.
 
 import (
+	"net/url"
 	"bytes"
 	"fmt"
 	"math/rand"
@@ -49,6 +50,12 @@ func c20Canon(src string) []string {
 					continue
 				case k == "align" && v == "":
 					continue
+				case k == "href" || k == "src":
+					// the destination is compared as the address it denotes: goldmark's own renderer percent-encodes characters such as `{`
+					// and `}` in it, the templates write them as they are - the same address, not a difference of structure or text
+					if u, err := url.PathUnescape(v); err == nil {
+						v = u
+					}
 				}
 				as = append(as, k+"="+v)
 			}
@@ -311,6 +318,10 @@ var c20Templates = []string{"autolink", "blockquote", "code_block", "code_span",
 const c20AllKinds = "# H\n\npara *em* **st** `cs` [l](u) ![i](s) ~~d~~ <http://a.b> <i>r</i>  \nbr\n\n> q\n\n- [x] t\n\n1. o\n\n```go\nc\n```\n\n| a |\n|---|\n| b |\n\n---\n"
 
 func runC20(r *Run, replay *Case) {
+	if replay != nil && replay.Input["stream"] == "concurrent" {
+		c20Concurrent(r)
+		return
+	}
 	if replay != nil && replay.Input["stream"] == "history" {
 		var docs []string
 		remarshal(replay.Input["docs"], &docs)
@@ -332,6 +343,7 @@ func runC20(r *Run, replay *Case) {
 		r.Add(c20Eval(s, nil))
 	}
 	c20History(r)
+	c20Concurrent(r)
 	g := &mdGen{r: r.Rng}
 	n := 800
 	if r.Thorough() {
